@@ -40,6 +40,7 @@ struct TRec {
     std::vector<int> atexit_pending;    // stack: registered and not yet run
     std::vector<int> atexit_nesting;    // tags whose callback registers one more callback while the chain is being run
     int atexit_ran = 0;
+    bool registering = false; // an aws_thread_current_at_exit call of the workload is in progress (its tag is already on top of atexit_pending)
     int os_joins = 0;
     bool joined_by_api = false;
     bool detached = false; // aws_thread_clean_up without a join: the thread runs on its own
@@ -85,8 +86,10 @@ void atexit_cb(void *ud) {
             r.atexit_registered.push_back(ntag);
             r.atexit_pending.push_back(ntag);
             sim::probe("at_exit_registered_from_at_exit_callback");
+            r.registering = true;
             if (aws_thread_current_at_exit(atexit_cb, (void *)(intptr_t)(id * 1000 + ntag)))
                 sim::violation("c20:atexit", "aws_thread_current_at_exit failed inside an at-exit callback");
+            r.registering = false;
         }
     r.atexit_ran++;
     c.hist = sim::mix64(c.hist, (uint64_t)code);
@@ -124,6 +127,32 @@ void tl_clean_up(struct aws_logger *) {}
 int tl_set_level(struct aws_logger *, enum aws_log_level) { return AWS_OP_SUCCESS; }
 struct aws_logger_vtable g_tl_vtable = {tl_log, tl_level, tl_clean_up, tl_set_level};
 struct aws_logger g_thread_logger = {&g_tl_vtable, nullptr, nullptr};
+
+// ---- an allocator with per-thread state that is flushed at thread exit: the first allocations it serves on a launched thread register
+// an at-exit callback on that thread - possibly in the middle of a library call that is itself registering one
+static std::map<int, int> g_alloc_regs;
+static bool g_in_alloc_hook = false;
+void alloc_hook(size_t, void *ud) {
+    Ctx *c = (Ctx *)ud;
+    if (!c || !sim::active() || g_in_alloc_hook) return;
+    auto it = c->by_tid.find(sim::self());
+    if (it == c->by_tid.end()) return;
+    int id = it->second;
+    if (g_alloc_regs[id] >= 2) return;
+    g_alloc_regs[id]++;
+    g_in_alloc_hook = true;
+    TRec &r = c->t[id];
+    int tag = (int)r.atexit_registered.size() + 1;
+    sim::probe("allocator_registered_an_at_exit_callback_while_serving_a_request");
+    // the record for this registration is pushed before the outer registration (if one is in progress) is linked in: the model mirrors
+    // the order in which the chain is built - whoever completes its push first is deeper in the stack
+    if (aws_thread_current_at_exit(atexit_cb, (void *)(intptr_t)(id * 1000 + tag)) == AWS_OP_SUCCESS) {
+        r.atexit_registered.push_back(tag);
+        if (r.registering && !r.atexit_pending.empty()) r.atexit_pending.insert(r.atexit_pending.end() - 1, tag); // completed before the outer one is linked in
+        else r.atexit_pending.push_back(tag);
+    }
+    g_in_alloc_hook = false;
+}
 
 struct Arg { Ctx *c; int id; uint64_t magic; };
 static Arg g_args[MAXT + 1];
@@ -319,8 +348,10 @@ void once_fn(void *ud) {
             r.atexit_registered.push_back(tag);
             r.atexit_pending.push_back(tag);
             sim::probe("at_exit_registered_from_call_once_function");
+            r.registering = true;
             if (aws_thread_current_at_exit(atexit_cb, (void *)(intptr_t)(oc->id * 1000 + tag)))
                 sim::violation("c20:atexit", "aws_thread_current_at_exit failed inside a call_once function on an aws thread");
+            r.registering = false;
         } else {
             sim::probe("at_exit_attempted_from_call_once_function_on_main");
             if (aws_thread_current_at_exit(atexit_cb, (void *)(intptr_t)999998) == AWS_OP_SUCCESS)
@@ -352,7 +383,9 @@ void body(Ctx &c, int id) {
                     for (int rep = 0; rep < times; rep++) {
                         r.atexit_registered.push_back(tag);
                         r.atexit_pending.push_back(tag);
+                        r.registering = true;
                         if (aws_thread_current_at_exit(atexit_cb, (void *)(intptr_t)(id * 1000 + tag))) sim::violation("c20:atexit", "aws_thread_current_at_exit failed on an aws thread");
+                        r.registering = false;
                     }
                     c.ops_done++;
                 }
@@ -456,7 +489,9 @@ RunInfo run(const sim::Plan &plan) {
     sim::begin(plan);
     sim::set_observer(observer, &c);
     g_logger_regs.clear();
+    g_alloc_regs.clear();
     aws_logger_set(&g_thread_logger);
+    if (plan.get("alloc_registers_atexit", 0)) simalloc::set_acquire_hook(alloc_hook, &c);
     c.main_tid = sim::self();
     if (aws_thread_get_managed_thread_count() != 0) sim::violation("c20:harness", "managed thread count not zero at start of run");
     body(c, 0);
@@ -591,6 +626,7 @@ void gen(uint64_t seed, int tier, sim::Plan &p) {
     // join_all_managed polls while one managed thread is left (documented): make a step cost enough virtual time
     // for sleeping threads to wake up within a reasonable number of polling iterations
     p.cfg["cpu_cost"] = r.pick(std::vector<int64_t>{1000, 10000, 100000});
+    if (r.chance(0.2)) p.cfg["alloc_registers_atexit"] = 1;
     p.cfg["soft_budget"] = 30000;
     p.cfg["hard_budget"] = 3000000;
 }
